@@ -63,6 +63,27 @@ pub fn gen_c14(rng: &mut Rng, thorough: bool) -> Vec<Tagged> {
             }
         }
     }
+    // the element SEQUENCE is preserved bit for bit whatever the values are: denormals, signed
+    // zeros, infinities, NaN, extreme magnitudes, arbitrary bit patterns
+    let special: Vec<f32> = vec![0.0, -0.0, f32::from_bits(1), -f32::from_bits(1), 1e-40, -3e-39, f32::MIN_POSITIVE, -f32::MIN_POSITIVE,
+                                 f32::MAX, f32::MIN, f32::INFINITY, f32::NEG_INFINITY, f32::NAN, f32::EPSILON, 1.0, -1.0];
+    for (c, h, w) in [(2usize, 2usize, 2usize), (1, 3, 2), (3, 1, 2), (2, 3, 1), (2, 2, 4), (4, 2, 2)] {
+        let n = c * h * w;
+        for stream in 0..3 {
+            let v: Vec<f32> = (0..n).map(|i| match stream {
+                0 => special[(i * 7 + c + w) % special.len()],
+                1 => rng.finite_bits(),
+                _ => if i % 2 == 0 { f32::from_bits(1 + (rng.next() % 8388607) as u32) } else { special[i % special.len()] },
+            }).collect();
+            let x3 = t3(c, h, w, &v);
+            out.push(("special-values-flatten3".into(), Case::Flatten(x3.clone())));
+            out.push(("special-values-getflat3".into(), Case::GetFlat(x3.clone())));
+            out.push(("special-values-reshape33".into(), Case::Reshape(x3.clone(), Shape::Triple(w, c, h))));
+            out.push(("special-values-reshape31".into(), Case::Reshape(x3.clone(), Shape::Single(n))));
+            out.push(("special-values-reshape13".into(), Case::Reshape(t1(v.clone()), Shape::Triple(c, h, w))));
+            out.push(("special-values-gettriple1".into(), Case::GetTriple(t1(v.clone()), Shape::Triple(h, w, c))));
+        }
+    }
     // flat to flat, unsupported ranks
     out.push(("reshape11".into(), Case::Reshape(t1(rng.distinct(6)), Shape::Single(7))));
     out.push(("flatten1".into(), Case::Flatten(t1(rng.distinct(5)))));
@@ -181,6 +202,36 @@ pub fn gen_c15(rng: &mut Rng, thorough: bool) -> Vec<Tagged> {
         let ds = rand_shape(rng, dr, 4);
         let rate = *rng.pick(&[0.0, 0.3, 0.5, 0.9, 1.0]);
         out.push(("dropout".into(), Case::Dropout(rand_tensor(rng, &ds, 0), rate)));
+    }
+    // large extents (beyond every plausible block / chunk / lane size, and not multiples of them):
+    // every element is still combined with its partner
+    let big: Vec<Shape> = vec![
+        Shape::Single(1000), Shape::Single(257), Shape::Double(130, 3), Shape::Double(200, 2), Shape::Double(3, 131), Shape::Double(129, 1),
+        Shape::Triple(33, 2, 2), Shape::Triple(2, 67, 2), Shape::Triple(2, 2, 129), Shape::Quadruple(17, 2, 2, 2), Shape::Quadruple(2, 2, 33, 3),
+    ];
+    for s in &big {
+        let a = rand_tensor(rng, s, 1);
+        let b = rand_tensor(rng, s, 1);
+        for k in 0..3u8 {
+            out.push(("binop-large".into(), Case::Binop(k, a.clone(), b.clone())));
+        }
+        out.push(("hadamard-large".into(), Case::Hadamard(a.clone(), b.clone(), 0.5)));
+        out.push(("divscalar-large".into(), Case::DivScalar(a.clone(), 3.0)));
+        out.push(("mean-large".into(), Case::Mean(a.clone(), vec![b.clone(), a.clone()])));
+        out.push(("clamp-large".into(), Case::Clamp(a.clone(), -0.25, 0.5)));
+    }
+    {
+        let (m, k) = (131usize, 67usize);
+        let u = t1(rng.vec(m, 1));
+        let v = t1(rng.vec(k, 1));
+        out.push(("product-large".into(), Case::Product(u.clone(), v.clone())));
+        let mat = t2(m, k, &rng.vec(m * k, 1));
+        out.push(("dot-large".into(), Case::Dot(mat.clone(), v.clone())));
+        out.push(("transpose-large".into(), Case::Transpose(mat)));
+        let a: Vec<Tensor> = vec![rand_tensor(rng, &Shape::Double(130, 3), 1), rand_tensor(rng, &Shape::Single(300), 1)];
+        let b: Vec<Tensor> = vec![rand_tensor(rng, &Shape::Double(130, 3), 1), rand_tensor(rng, &Shape::Single(300), 1)];
+        out.push(("nested-add-large".into(), Case::NestedAdd(a.clone(), b)));
+        out.push(("nested-div-large".into(), Case::NestedDiv(a, 7.0)));
     }
     out
 }
